@@ -2223,6 +2223,18 @@ class Engine(object):
         return [("normal", st, None)]
 
     def st_ImportFrom(self, node, st):
+        """`from package.module import name [as alias]` inside a function: names of repository modules (functions, classes, module
+        constants) are bound locally to what the same import at module level would give; anything else is left alone (the name
+        then resolves as before, or not at all)"""
+        if node.level == 0 and node.module:
+            m2 = load_module(node.module)
+            if m2 is not None:
+                for a in node.names:
+                    if a.name in m2.defs or a.name in m2.classes or a.name in m2.assigned or a.name in m2.imports:
+                        try:
+                            st = st.set(a.asname or a.name, self.lookup_global(a.name, m2))
+                        except EngineError:
+                            pass
         return [("normal", st, None)]
 
     def st_FunctionDef(self, node, st):
